@@ -27,27 +27,27 @@ VARIABLES pl,      \* payload [cls, val] or "none"
           act
 vars == <<pl, depth, obs, act>>
 
-Frames == {"js", "jscatch", "jsfinally", "native", "reflectErr", "reflectNoErr", "exportTo", "ctor", "proxytrap", "getterTry", "forof"}
+Frames == {"js", "jscatch", "jsfinally", "native", "reflectErr", "reflectNoErr", "reflectWrap", "exportTo", "ctor", "proxytrap", "getterTry", "forof"}
 Raisers == {"throw-prim", "throw-obj", "throw-err", "native-panic-value", "native-panic-goerror", "reflect-return-error",
             "reflect-return-wrapped", "reflect-return-joined", "native-repanic-exception", "interrupt", "overflow", "foreign-panic"}
 
 \* the payload a raiser produces
-Born(r) == CASE r = "throw-prim" -> [cls |-> "catchable", val |-> "prim", site |-> "js"]
-             [] r = "throw-obj" -> [cls |-> "catchable", val |-> "obj", site |-> "js"]
-             [] r = "throw-err" -> [cls |-> "catchable", val |-> "err", site |-> "js"]
-             [] r = "native-panic-value" -> [cls |-> "catchable", val |-> "nval", site |-> "go"]
+Born(r) == CASE r = "throw-prim" -> [cls |-> "catchable", val |-> "prim", sent |-> "F", inner |-> "-", site |-> "js"]
+             [] r = "throw-obj" -> [cls |-> "catchable", val |-> "obj", sent |-> "F", inner |-> "-", site |-> "js"]
+             [] r = "throw-err" -> [cls |-> "catchable", val |-> "err", sent |-> "F", inner |-> "-", site |-> "js"]
+             [] r = "native-panic-value" -> [cls |-> "catchable", val |-> "nval", sent |-> "F", inner |-> "-", site |-> "go"]
              \* a Go error entering script is wrapped in a GoError object; Unwrap/Is/As on the final Exception reach it
-             [] r = "native-panic-goerror" -> [cls |-> "catchable", val |-> "goerr:sentinel", site |-> "go"]
-             [] r = "reflect-return-error" -> [cls |-> "catchable", val |-> "goerr:sentinel", site |-> "go"]
-             [] r = "reflect-return-wrapped" -> [cls |-> "catchable", val |-> "goerr:wrapped", site |-> "go"]
-             [] r = "reflect-return-joined" -> [cls |-> "catchable", val |-> "goerr:joined", site |-> "go"]
+             [] r = "native-panic-goerror" -> [cls |-> "catchable", val |-> "goerr:sentinel", sent |-> "T", inner |-> "-", site |-> "go"]
+             [] r = "reflect-return-error" -> [cls |-> "catchable", val |-> "goerr:sentinel", sent |-> "T", inner |-> "-", site |-> "go"]
+             [] r = "reflect-return-wrapped" -> [cls |-> "catchable", val |-> "goerr:wrapped", sent |-> "T", inner |-> "-", site |-> "go"]
+             [] r = "reflect-return-joined" -> [cls |-> "catchable", val |-> "goerr:joined", sent |-> "T", inner |-> "-", site |-> "go"]
              \* a native that got an *Exception back from a JS callee and panics with it: the SAME value travels on
-             [] r = "native-repanic-exception" -> [cls |-> "catchable", val |-> "obj", site |-> "js"]
-             [] r = "interrupt" -> [cls |-> "uncatchable", val |-> "interrupt", site |-> "go"]
-             [] r = "overflow" -> [cls |-> "uncatchable", val |-> "overflow", site |-> "js"]
-             [] r = "foreign-panic" -> [cls |-> "foreign", val |-> "foreign", site |-> "go"]
+             [] r = "native-repanic-exception" -> [cls |-> "catchable", val |-> "obj", sent |-> "F", inner |-> "-", site |-> "js"]
+             [] r = "interrupt" -> [cls |-> "uncatchable", val |-> "interrupt", sent |-> "F", inner |-> "-", site |-> "go"]
+             [] r = "overflow" -> [cls |-> "uncatchable", val |-> "overflow", sent |-> "F", inner |-> "-", site |-> "js"]
+             [] r = "foreign-panic" -> [cls |-> "foreign", val |-> "foreign", sent |-> "F", inner |-> "-", site |-> "go"]
 
-Init == pl = [cls |-> "none", val |-> "-", site |-> "-"] /\ depth = 0 /\ obs = <<>> /\ act = [op |-> "init"]
+Init == pl = [cls |-> "none", val |-> "-", sent |-> "F", inner |-> "-", site |-> "-"] /\ depth = 0 /\ obs = <<>> /\ act = [op |-> "init"]
 
 Raise(r) == /\ pl.cls = "none" /\ pl' = Born(r) /\ depth' = 0 /\ obs' = <<>> /\ act' = [op |-> "raise", r |-> r]
 
@@ -60,7 +60,12 @@ Cross(k) ==
   /\ (pl.val = "interrupt" /\ depth = 0 => k \in {"js", "jscatch", "jsfinally", "proxytrap"})
   \* (a catch clause that rethrows is a new throw site for the stack trace; the value and its identity are unchanged)
   \* (an Error object carries the stack of its creation; for any other value the rethrow site is what the host sees)
-  /\ pl' = IF pl.cls = "catchable" /\ k = "jscatch" /\ pl.val # "err" THEN [pl EXCEPT !.site = "rethrown"] ELSE pl
+  \* reflectWrap: a reflect-wrapped Go function that receives an *Exception from its callee and RETURNS a new Go error wrapping it
+  \* (fmt.Errorf("%w")): script now sees a GoError for that new error; the chain of the final Exception still reaches the
+  \* inner Exception (and through it the original Go error, if there was one)
+  /\ pl' = IF pl.cls = "catchable" /\ k = "jscatch" /\ pl.val # "err" THEN [pl EXCEPT !.site = "rethrown"]
+            ELSE IF pl.cls = "catchable" /\ k = "reflectWrap" THEN [pl EXCEPT !.val = "goerr:rewrap", !.inner = pl.val, !.site = "go"]
+            ELSE pl
   /\ depth' = depth + 1
   /\ obs' = IF pl.cls = "catchable" /\ k = "jscatch" THEN Append(obs, "catch:" \o pl.val)
             ELSE IF pl.cls = "catchable" /\ k = "jsfinally" THEN Append(obs, "finally")
@@ -73,16 +78,17 @@ Host ==
   /\ act' = [op |-> "host",
              res |-> [kind |-> IF pl.cls = "catchable" THEN "Exception" ELSE IF pl.cls = "foreign" THEN "panic" ELSE pl.val,
                       value |-> pl.val,
-                      isSentinel |-> IF pl.val \in {"goerr:sentinel", "goerr:wrapped", "goerr:joined"} THEN "T" ELSE "F",
+                      isSentinel |-> pl.sent, inner |-> pl.inner,
                       topFrame |-> IF pl.site = "js" /\ pl.cls = "catchable" THEN "thrower" ELSE "-",
                       obs |-> obs]]
-  /\ pl' = [cls |-> "none", val |-> "-", site |-> "-"] /\ depth' = 0 /\ obs' = <<>>
+  /\ pl' = [cls |-> "none", val |-> "-", sent |-> "F", inner |-> "-", site |-> "-"] /\ depth' = 0 /\ obs' = <<>>
 
 Next == (\E r \in Raisers : Raise(r)) \/ (\E k \in Frames : Cross(k)) \/ Host
 Spec == Init /\ [][Next]_vars
 
 \* the property: nothing a frame does changes the payload, uncatchable / foreign payloads are never observed by script
-Preserved == [][act'.op = "cross" => pl'.cls = pl.cls /\ pl'.val = pl.val]_vars
+Preserved == [][act'.op = "cross" => /\ pl'.cls = pl.cls /\ pl'.sent = pl.sent
+                                      /\ (pl'.val = pl.val \/ (act'.k = "reflectWrap" /\ pl.cls = "catchable" /\ pl'.inner = pl.val))]_vars
 Unobserved == (pl.cls \in {"uncatchable", "foreign"}) => obs = <<>>
 St == [pl |-> pl, depth |-> depth, obs |-> obs]
 StP == [pl |-> pl', depth |-> depth', obs |-> obs']
